@@ -182,6 +182,9 @@ func (e *Exec) invoke(primary bool, f func() error) (err error) {
 			if e.cur != nil {
 				props = append(props, opProps[e.cur.K]...)
 			}
+			if e.Ctl.FaultFired {
+				props = append(props, "C04") // a store failure must surface as an error, not as a panic
+			}
 			e.fail(props, "C20/panic", fmt.Sprintf("panic: %v\n%s", r, trimStack(debug.Stack())), map[string]string{"panic": firstLine(fmt.Sprint(r))})
 			err = fmt.Errorf("panic: %v", r)
 		}
@@ -190,6 +193,13 @@ func (e *Exec) invoke(primary bool, f func() error) (err error) {
 	err = f()
 	if primary {
 		e.targetFCalls = e.Ctl.FCalls
+	}
+	if e.Ctl.CursorsOpen != 0 && e.Ctl.TxOpen == 0 {
+		props := []string{"C20"}
+		if err != nil {
+			props = []string{"C04", "C20"}
+		}
+		e.fail(props, "C04/cursor-leak", fmt.Sprintf("public call returned (err=%v) with %d store cursor(s) never closed: badger panics (\"Unclosed iterator at time of Txn.Discard\") when such a transaction is discarded", err, e.Ctl.CursorsOpen), nil)
 	}
 	if e.Ctl.TxOpen != 0 {
 		props := []string{"C20"}
@@ -522,7 +532,7 @@ func (e *Exec) compareAll(target string, targetProps []string, what string) {
 		return
 	}
 	sort.Strings(names)
-	if strings.Join(names, "\x00") != strings.Join(e.M.CollNames(), "\x00") {
+	if !sameStrings(names, e.M.CollNames()) {
 		e.fail([]string{"C13"}, "C13/catalog", fmt.Sprintf("after %s: ListCollections = %q, model has %q", what, names, e.M.CollNames()), nil)
 		return
 	}
@@ -564,7 +574,7 @@ func (e *Exec) compareAll(target string, targetProps []string, what string) {
 			return
 		}
 		sort.Strings(infos)
-		if err != nil || strings.Join(infos, "\x00") != strings.Join(e.M.Colls[name].IndexFields(), "\x00") {
+		if err != nil || !sameStrings(infos, e.M.Colls[name].IndexFields()) {
 			props := []string{"C14"}
 			if name != target {
 				props = append(props, "C13")
@@ -986,7 +996,7 @@ func (e *Exec) stepOne(op *Op) (qr queryResult) {
 		if e.judge(err, "", []string{"C13"}, op.Brief()) == outOK {
 			e.checked("catalog")
 			sort.Strings(names)
-			if strings.Join(names, "\x00") != strings.Join(e.M.CollNames(), "\x00") {
+			if !sameStrings(names, e.M.CollNames()) {
 				e.fail([]string{"C13"}, "C13/catalog", fmt.Sprintf("ListCollections = %q, model has %q", names, e.M.CollNames()), nil)
 			}
 		}
@@ -1151,7 +1161,7 @@ func (e *Exec) stepOne(op *Op) (qr queryResult) {
 		if e.judge(err, want, []string{"C14"}, op.Brief()) == outOK {
 			e.checked("index-catalog")
 			sort.Strings(fields)
-			if strings.Join(fields, "\x00") != strings.Join(mc.IndexFields(), "\x00") {
+			if !sameStrings(fields, mc.IndexFields()) {
 				e.fail([]string{"C14"}, "C14/catalog", fmt.Sprintf("ListIndexes(%q) = %q, model has %q", op.Coll, fields, mc.IndexFields()), nil)
 			}
 		}
@@ -1412,4 +1422,16 @@ var opProps = map[string][]string{
 	"Insert": {"C12"}, "InsertOne": {"C12"}, "Save": {"C12"}, "ReplaceById": {"C12"}, "UpdateById": {"C12"},
 	"Update": {"C03"}, "UpdateFunc": {"C03"}, "Delete": {"C03"},
 	"Export": {"C19"}, "Import": {"C19"},
+}
+
+func sameStrings(a, b []string) bool {
+	if len(a) != len(b) {
+		return false
+	}
+	for i := range a {
+		if a[i] != b[i] {
+			return false
+		}
+	}
+	return true
 }
